@@ -633,6 +633,10 @@ func TestVerifC32(t *testing.T) {
 			}
 			if anyRenamed {
 				classes = append(classes, "second-run-differs-after-rename-purge")
+			} else if len(failIdx)+len(failTrash) > 0 {
+				// the first run was not fault-free (injected rename failures): e.g. a repository whose restore failed
+				// lost its trashed shards, so the fault-free second run revives its tombstoned copy instead
+				classes = append(classes, "second-run-differs-after-rename-failure")
 			} else if compoundDeleted {
 				// downstream of the compound-shard deletion: UnsetTombstone hit the deleted shard, the next run revives another copy
 				vfOracleFail(fmt.Sprintf("not-idempotent:compound-shard-deleted:shardMerging=%v", sm), "a second cleanup with the same arguments changed the directory (first run deleted a compound shard)", replay)
